@@ -4,11 +4,11 @@ import copy, re
 from vf import cqle_stmt as H
 
 # db column name -> model id
-NAMES = {'k': 0, 'c': 1, 'st': 2, 'x': 3, 'y': 4, 's': 5, 'l': 6, 'm': 7, 'n1': 8, 'n2': 9, 'm2': 10,
+NAMES = {'k': 0, 'c': 1, 'st': 2, 'x': 3, 'y': 4, 's': 5, 'l': 6, 'm': 7, 'n1': 8, 'n2': 9, 'm2': 10, 'st2': 11, 'ml': 12,
          'yy': 40}          # 'yy' is an ATTRIBUTE name (db_field 'y'): it must never appear in CQL
-ROW_COLS = [2, 3, 4, 5, 6, 7, 10]
-KIND = {0: 'KScalar', 1: 'KScalar', 2: 'KScalar', 3: 'KScalar', 4: 'KScalar', 5: 'KSetC', 6: 'KListC', 7: 'KMapC', 8: 'KCounterC', 9: 'KCounterC', 10: 'KMapC'}
-SCHEMA_ROW = '{| pk_col := 0; ck_col := Some 1; static_cols := [2] |}'
+ROW_COLS = [2, 3, 4, 5, 6, 7, 10, 11, 12]
+KIND = {0: 'KScalar', 1: 'KScalar', 2: 'KScalar', 3: 'KScalar', 4: 'KScalar', 5: 'KSetC', 6: 'KListC', 7: 'KMapC', 8: 'KCounterC', 9: 'KCounterC', 10: 'KMapC', 11: 'KScalar', 12: 'KMapC'}
+SCHEMA_ROW = '{| pk_col := 0; ck_col := Some 1; static_cols := [2; 11] |}'
 SCHEMA_CNT = '{| pk_col := 0; ck_col := None; static_cols := [] |}'
 _M = {}
 
@@ -31,6 +31,8 @@ def models():
         l = C.List(C.Integer)
         m = C.Map(C.Integer, C.Integer)
         m2 = C.Map(C.Integer, C.Integer)
+        st2 = C.Integer(static=True)                       # a static column declared AFTER regular ones
+        ml = C.Map(C.Integer, C.List(C.Integer))          # nested collection: map<int, frozen<list<int>>>
 
     class Cnt(Model):
         __keyspace__ = 'ks'
@@ -113,7 +115,8 @@ def to_ast(text, params):
             for fr in parts['A']:
                 k, f, ps = fr
                 if k == 'KMapPut':
-                    sets.append('(APut %s %s %s)' % (H.z(f), val(ps[0]), val(ps[1])))
+                    pv = params[str(ps[1])]
+                    sets.append('(APut %s %s %s)' % (H.z(f), val(ps[0]), H.coq_val(H.canon_atom(pv)) if isinstance(pv, (list, tuple)) else val(ps[1])))
                 else:
                     sets.append('(%s %s %s)' % ({'KAssign': 'ASet', 'KPlus': 'APlus', 'KMinus': 'AMinus', 'KPrepend': 'APrepend'}[k], H.z(f), val(ps[0])))
             out.append('(CUpdate [%s] %s)' % ('; '.join(sets), key(parts['W'])))
@@ -141,8 +144,10 @@ MAPS = [[], [[1, 2]], [[1, 2], [3, 4]], [[1, 5], [3, 4]], [[3, 4]], [[2, 2], [1,
 
 
 def gen_attr_val(rng, attr):
-    if attr in ('st', 'x', 'yy'):
+    if attr in ('st', 'x', 'yy', 'st2'):
         return rng.choice(SCAL)
+    if attr == 'ml':
+        return rng.choice([None] + [['MN', v] for v in NESTED] * 2)
     if attr == 's':
         return rng.choice([None] + [['S', v] for v in SETS] * 2)
     if attr == 'l':
@@ -150,7 +155,15 @@ def gen_attr_val(rng, attr):
     return rng.choice([None] + [['M', v] for v in MAPS] * 2)
 
 
-ATTRS = ['st', 'x', 'yy', 's', 'l', 'm', 'm2']
+ATTRS = ['st', 'x', 'yy', 's', 'l', 'm', 'm2', 'st2', 'ml']
+NESTED = [[], [[1, [1, 2]]], [[1, [5]], [2, [3, 4]]], [[3, []], [1, [7]]]]
+
+
+def pyv(v):
+    """spec value -> python value (adds the nested-map tag 'MN' to cqle_stmt.py_val)"""
+    if isinstance(v, list) and v[0] == 'MN':
+        return dict((k_, list(w)) for k_, w in v[1])
+    return H.py_val(v)
 
 
 def gen_scenario(rng):
@@ -158,11 +171,21 @@ def gen_scenario(rng):
     big = [[1, 2], [2, 3], [3, 4], [9, 1]]
     r = rng.random()
     persist = [rng.choice(['save', 'batch_save'])]
-    if r < 0.35:      # keys dropped from two map columns in the same (possibly batched) save
+    if r < 0.15:      # in-place change of an INNER collection of a nested collection column of a persisted instance
+        return [['create', {'ml': ['MN', [[1, [5]], [2, [3, 4]]]], 'x': rng.choice(SCAL)}]] + ([persist] if rng.random() < 0.3 else []) + \
+               [['mut', 'ml', 'inner', rng.choice([1, 2])]] + ([['set', 'x', 7]] if rng.random() < 0.5 else []) + [rng.choice([['save'], ['update', {}], ['batch_save']])]
+    if r < 0.3:       # a regular column and a static column declared after it change in the same save of a persisted instance
+        return [['create', {'x': 1, 'st2': 1, 'st': rng.choice(SCAL)}], persist, ['set', 'x', rng.choice([5, -3])], ['set', 'st2', rng.choice([5, 0])]] + \
+               ([['set', 'st', 0]] if rng.random() < 0.3 else []) + [[rng.choice(['save', 'batch_save'])]]
+    if r < 0.45:      # blind update whose collection operand happens to be empty, on a stored non-empty collection
+        a, op = rng.choice([('s', 'add'), ('s', 'remove'), ('l', 'append'), ('l', 'prepend')])
+        return [['create', {'s': ['S', [1, 2]], 'l': ['L', [1, 2]], 'x': 1}],
+                ['qs_update', [[a, op, ['S', []] if a == 's' else ['L', []]]] + ([['x', None, 5]] if rng.random() < 0.5 else [])]]
+    if r < 0.6:       # keys dropped from two map columns in the same (possibly batched) save
         ks = rng.sample([1, 2, 3, 9], 2)
         return [['create', {'m': ['M', big], 'm2': ['M', big], 'x': rng.choice(SCAL)}],
                 ['mut', 'm', 'remove', ks[0]], ['mut', 'm2', 'remove', ks[1]]] + ([['mut', 'm', 'add', 5]] if rng.random() < 0.3 else []) + [persist]
-    if r < 0.7:       # a stored list grows at both ends (and other containers change) in one save
+    if r < 0.8:       # a stored list grows at both ends (and other containers change) in one save
         base = rng.choice([[2, 3], [1], [4, 4], [1, 2, 3]])
         return [['create', {'l': ['L', base], 's': ['S', [1, 2]]}], ['mut', 'l', 'grow', rng.choice([1, 2, 3])]] + \
                ([['mut', 's', 'grow', 5]] if rng.random() < 0.4 else []) + [persist]
@@ -186,8 +209,8 @@ def gen_history(rng, maxn=8):
         elif r < 0.36:
             ops.append(['del', rng.choice(ATTRS)])
         elif r < 0.5:
-            a = rng.choice(['s', 'l', 'm', 'm2', 'm', 'm2', 'l'])
-            how = rng.choice(['add', 'remove', 'remove', 'clear', 'grow'])
+            a = rng.choice(['s', 'l', 'm', 'm2', 'm', 'm2', 'l', 'ml', 'ml'])
+            how = rng.choice(['add', 'remove', 'remove', 'clear', 'grow'] + (['inner', 'inner', 'inner'] if a == 'ml' else []))
             ops.append(['mut', a, how, rng.choice([1, 2, 3, 9])])
             if a in ('m', 'm2') and how == 'remove' and rng.random() < 0.6:
                 ops.append(['mut', 'm2' if a == 'm' else 'm', 'remove', rng.choice([1, 2, 3, 9])])   # keys dropped from both maps in one save
@@ -233,7 +256,7 @@ def gen_qs_update(rng):
 def doc_update(row, a, op, v):
     """documented semantics of ModelQuerySet.update on the stored row (dict attr -> python value or None)"""
     old = row.get(a)
-    pv = H.py_val(v)
+    pv = pyv(v)
     if op is None:
         row[a] = pv
     elif op == 'add':
@@ -254,7 +277,7 @@ def doc_update(row, a, op, v):
         row[a] = None
 
 
-ATTR_COL = {'st': 2, 'x': 3, 'yy': 4, 's': 5, 'l': 6, 'm': 7, 'm2': 10}
+ATTR_COL = {'st': 2, 'x': 3, 'yy': 4, 's': 5, 'l': 6, 'm': 7, 'm2': 10, 'st2': 11, 'ml': 12}
 
 
 def row_literal(row):
